@@ -208,6 +208,7 @@ class Stats(dict):
 
 NT_SUBSAMPLE = 16    # thorough tier: only cases with content hash = 0 mod 16 are registered as distinct non-trivial (lower bound)
 PER_MECHANISM = 3
+M60 = (1 << 60) - 1
 
 
 def report(run, case, viols):
@@ -273,7 +274,7 @@ def run_check(run, tier, seed, shard):
             run.ev(n)
             npairs += 1
             if x and y:
-                h = hash((af, bf, rf, x, y))
+                h = hash((af, bf, rf, x >> 60, x & M60, y >> 60, y & M60))   # 60-bit limbs: hash(int) reduces modulo 2**61-1
                 if tier == 'quick' or h % NT_SUBSAMPLE == 0:
                     run.nt(h)
             if viols:
